@@ -151,6 +151,14 @@ func classify(ops []Op) map[string]bool {
 			if e, ok := efc[op.Idx]; ok && handed[op.Idx] >= e && len(op.Items) >= 2 {
 				l["batch-on-parallel-path"] = true
 			}
+			for _, it := range op.Items {
+				if len(it.Vec) != len(op.Items[0].Vec) {
+					l["batch-with-mixed-dimensions"] = true
+					if handed[op.Idx] == 0 {
+						l["mixed-dimension-batch-on-index-without-vectors"] = true
+					}
+				}
+			}
 			handed[op.Idx] += len(op.Items)
 			l["has-batch"] = true
 			if afterSnapshot {
@@ -197,6 +205,22 @@ func classify(ops []Op) map[string]bool {
 		case KSetMeta, KReinforce:
 			if afterSnapshot {
 				l["write-after-snapshot"] = true
+			}
+		}
+		hasNull := func(m map[string]any) bool {
+			for _, v := range m {
+				if v == nil {
+					return true
+				}
+			}
+			return false
+		}
+		if hasNull(op.Meta) {
+			l["null-valued-metadata-key"] = true
+		}
+		for _, it := range op.Items {
+			if hasNull(it.Meta) {
+				l["null-valued-metadata-key"] = true
 			}
 		}
 		switch op.K {
